@@ -760,26 +760,28 @@ func minimise(bin string, p *Plan, key string, budget int, deadline time.Time) (
 		}
 		cur = c
 	}
-	for t := 0; t < len(cur.Tasks); t++ {
-		for o := 0; o < len(cur.Tasks[t]); o++ {
-			for {
-				var spec map[string]json.RawMessage
-				if json.Unmarshal(cur.Tasks[t][o], &spec) != nil || spec["warm"] == nil || rawInt(spec["warm"]) < 1 {
-					break
+	for _, field := range []string{"warm", "cool"} {
+		for t := 0; t < len(cur.Tasks); t++ {
+			for o := 0; o < len(cur.Tasks[t]); o++ {
+				for {
+					var spec map[string]json.RawMessage
+					if json.Unmarshal(cur.Tasks[t][o], &spec) != nil || spec[field] == nil || rawInt(spec[field]) < 1 {
+						break
+					}
+					w := rawInt(spec[field]) / 2
+					if w == 0 {
+						delete(spec, field)
+					} else {
+						spec[field] = json.RawMessage(strconv.Itoa(w))
+					}
+					raw, _ := json.Marshal(spec)
+					c := clonePlan(cur)
+					c.Tasks[t][o] = raw
+					if !try(c) {
+						break
+					}
+					cur = c
 				}
-				w := rawInt(spec["warm"]) / 2
-				if w == 0 {
-					delete(spec, "warm")
-				} else {
-					spec["warm"] = json.RawMessage(strconv.Itoa(w))
-				}
-				raw, _ := json.Marshal(spec)
-				c := clonePlan(cur)
-				c.Tasks[t][o] = raw
-				if !try(c) {
-					break
-				}
-				cur = c
 			}
 		}
 	}
